@@ -101,12 +101,18 @@ func runC11(c *Ctx) {
 		near := []string{"x!y^2]", "(n!)^2]", "!^]", "a!b^c] d", "[x^]", "^[a]", "[ ^a]", "[a^b]", "!x^", "![a!b^c](/u)", "[q!r^s][ref]\n\n[ref]: /u", "[wow!2^8]\n\n[wow!2^8]: /u", "a [x] b", "- a [x]", "[x] a", "-[ ] a", "- [y] a", "- [ ]a", "-  [ ] a", "1.[x] a",
 			"http:/a.b", "http//a.b", "www a.b", "www.a", "ww.a.b", "a@b", "a@.b", "@a.b", "mailto:", "ftp:a.b", "http://", "://a.b", "a:b", "a : b", "x\n:y", "x\n :", ":\n", "a\n\n:b",
 			"a|b", "|", "a|\nb|", "|-", "-|-\n", "a\n-|", "| a |\n| b |", "a|b\n=|=", "1-2", "a - b", "a -- b"[:5], "'", "it's", "2\"", "a.b", "a. .b", "<a", "a>", "< <", "> >", "~", "a~b", "~ ~", "a ~ b~"}
+		// documents in the syntax of one extension with the near-triggers of the others
+		for _, t := range []string{"漢字 \n漢字", "あい \nうえ ", "漢 字\t\n漢字", "Ａ \nｂ", "漢字  \n漢字", "漢字 \n*漢字*", "*漢字* \n漢字", "漢字\\ \n漢字 \nabc", "- 漢字 \n  漢字", "> あ \n> い",
+			"~~s~~ \nt", "a ~~b~~ \n", "|a |b |\n|-|-|\n|c |d |", "- [ ] a \n  b", "t \n: d \n", "x[^1] \ny\n\n[^1]: n \n", "\"q\" \n'r'", "a -- b \n... c", "http://a.b \nc", "www.a.b \n"} {
+			add("pairwise", []byte(t))
+		}
 		for _, n := range near {
 			add("near-trigger", []byte(n))
 			add("near-trigger", []byte("- "+n+"\n\n> "+n+"\n"))
 			add("near-trigger", []byte("# "+n+"\n\n*"+n+"* ["+n+"](/u)\n"))
 		}
 	})
+	c11Pairwise(c, items)
 	lawSweepAll(c, cfgs, items, "extension-conservativity", func(d []byte) bool { return true }, func(m mdT, all []mdT, d []byte) (string, bool) {
 		if m.cf.Ext != "core" {
 			return "", false
@@ -186,6 +192,64 @@ func runC11(c *Ctx) {
 		}
 		if gfm != nil && gfm4 != nil && !bytes.Equal(gfm, gfm4) {
 			return fmt.Sprintf("extension.GFM differs from its four members: %.250q vs %.250q", gfm, gfm4), nontrivial
+		}
+		return "", nontrivial
+	})
+}
+
+// every extension on top of every other single extension: B+E against B, on the documents free
+// of E's trigger characters (they may well use B's syntax)
+func c11Pairwise(c *Ctx, items []docItem) {
+	names := []string{"strike", "table", "task", "footnote", "deflist", "typo", "linkify", "cjk", "cjkesc", "cjkcss3"}
+	var cfgs []Cfg
+	for _, b := range names {
+		cfgs = append(cfgs, Cfg{Ext: b})
+		for _, e := range names {
+			if e != b && !(strings.HasPrefix(e, "cjk") && strings.HasPrefix(b, "cjk")) {
+				cfgs = append(cfgs, Cfg{Ext: "pair:" + b + ":" + e})
+			}
+		}
+	}
+	var sub []docItem
+	for i, it := range items {
+		if it.stream == "targeted" || it.stream == "near-trigger" || it.stream == "pairwise" || it.stream == "past-failures" || i%5 == 0 || !c.Quick() && i%2 == 0 {
+			sub = append(sub, it)
+		}
+	}
+	lawSweepAll(c, cfgs, sub, "extension-conservativity-pairwise", func(d []byte) bool { return true }, func(m mdT, all []mdT, d []byte) (string, bool) {
+		if strings.HasPrefix(m.cf.Ext, "pair:") {
+			return "", false
+		}
+		base, e, p := convertSafe(m.md, d)
+		if e != "" || p != "" {
+			return "", false
+		}
+		nontrivial := bytes.Count(base, []byte("\n")) >= 2
+		for _, s := range all {
+			pre := "pair:" + m.cf.Ext + ":"
+			if !strings.HasPrefix(s.cf.Ext, pre) {
+				continue
+			}
+			name := strings.TrimPrefix(s.cf.Ext, pre)
+			var ext *c11Ext
+			for i := range c11Exts {
+				if c11Exts[i].name == name {
+					ext = &c11Exts[i]
+				}
+			}
+			if ext == nil || !ext.free(d) {
+				continue
+			}
+			o, e2, p2 := convertSafe(s.md, d)
+			if e2 != "" || p2 != "" {
+				continue
+			}
+			if !bytes.Equal(o, base) {
+				if name == "cjkcss3" && onlyPunctBreaksDropped(d, base, o) {
+					return "KNOWN:cjkcss3-ascii-punct " + fmt.Sprintf("%.120q vs %.120q", o, base), nontrivial
+				}
+				return fmt.Sprintf("extension %s on top of %s changes a document without its trigger characters: %.250q vs %.250q", strings.ToUpper(name), strings.ToUpper(m.cf.Ext), o, base), nontrivial
+			}
 		}
 		return "", nontrivial
 	})
